@@ -66,8 +66,15 @@ def make_case(rng, tier):
             a, b, kd = gen.pick_interval(rng, ts, te, x)
             m = rng.choice([t for t in x if a < t < b] + [(a + b) / 2])
             steps.append(["additive", [a, m, b]])
-        elif r < 0.84:
+        elif r < 0.80:
             steps.append(["eval", near_times(rng, x, ts, te)])
+        elif r < 0.84:
+            # all-integer evaluation times (python ints), as users write f([0, 1, 2])
+            lo, hi = int(math.ceil(ts)), int(math.floor(te))
+            if hi >= lo:
+                steps.append(["eval", [rng.randint(lo, hi) for _ in range(rng.randint(2, 5))], "int"])
+            else:
+                steps.append(["eval", near_times(rng, x, ts, te)])
         elif r < 0.88:
             steps.append(["plot"])
         elif r < 0.95:
@@ -92,7 +99,7 @@ class Prop(BaseProp):
     must_see = ["kind_pwc", "kind_pwl", "ikind_same_piece", "ikind_bp_bp", "ikind_from_start", "ikind_to_end",
                 "ikind_half_half", "single_piece_function", "negative_values", "eval_on_interior_breakpoint",
                 "eval_1ulp_from_breakpoint", "eval_list_with_breakpoint", "query_after_mutation", "avrg_list", "additive",
-                "plot", "int_valued"]
+                "plot", "int_valued", "eval_integer_times"]
     must_contracts = ["inv:PieceWiseConstFunc", "inv:PieceWiseLinFunc"]
     arm_files = [("pyspike/PieceWiseConstFunc.py", None), ("pyspike/PieceWiseLinFunc.py", None)]
     assumptions = ["only the pure-Python classes are involved (no backend kernel), hence one configuration",
@@ -176,6 +183,8 @@ class Prop(BaseProp):
                 ctx.expect(abs(float(i1) + float(i2) - float(i3)) <= tol, tag, "integral[%r,%r]+integral[%r,%r]=%r but integral[%r,%r]=%r" % (a, m, m, b, float(i1) + float(i2), a, b, float(i3)))
             elif op == "eval":
                 ts_ = step[1]
+                if len(step) > 2:
+                    ctx.count("eval_integer_times")
                 X = [float(v) for v in mod.X]
                 singles = []
                 for t in ts_:
